@@ -382,6 +382,11 @@ func (ex *Exec) call(in *ssa.Call, cc *ssa.CallCommon, r Term) {
 			if ex.count[key] == ca.Ordinal {
 				env := ex.baseEnv(ex.cur)
 				ex.bindDominating(env, in)
+				for k, nv := range ex.named {
+					if _, clash := env.vars[k]; !clash {
+						env.vars[k] = nv
+					}
+				}
 				t, err := env.Goal(ca.C.E)
 				if err != nil {
 					unsup("call %d %s assert: %v", ca.Ordinal, ca.Callee, err)
